@@ -95,13 +95,15 @@ def gen_md_value(r, depth=0, maxdepth=3):
             else:
                 xs.append(r.choice([{"t": "int", "v": r.randrange(-5, 5)}, {"t": "float", "v": f2hex(r.choice(FLOATS[:6]))}]))
         return {"t": k.split("_")[0], "xs": xs}
+    # containers are mostly short, sometimes longer than 10 elements (element names "10", "11" sort before "2")
+    clen = r.choice([1, 2, 3, 3, 12]) if r.random() < 0.9 else r.choice([11, 13, 25])
     if k in ("tuple_arr", "list_arr"):
-        return {"t": k.split("_")[0], "xs": [gen_arr(r) for _ in range(r.randrange(1, 4))]}
+        return {"t": k.split("_")[0], "xs": [gen_arr(r, maxrank=1) if clen > 5 else gen_arr(r) for _ in range(clen)]}
     if k in ("tuple_str", "list_str"):
-        return {"t": k.split("_")[0], "xs": [{"t": "str", "v": r.choice(STRS[:7])} for _ in range(r.randrange(1, 4))]}
+        return {"t": k.split("_")[0], "xs": [{"t": "str", "v": (r.choice(STRS[:7]) if clen <= 5 else f"s{i}")} for i in range(clen)]}
     if k == "tuple_tuple":
         # tuple of numeric tuples of equal or different lengths (one level)
-        n = r.randrange(1, 4)
+        n = clen
         return {"t": "tuple", "xs": [{"t": "tuple", "xs": [{"t": "int", "v": r.randrange(-9, 9)} for _ in range(r.randrange(1, 4))]}
                                       for _ in range(n)]}
     if k == "dict":
